@@ -108,11 +108,30 @@ def impl_init():
                 return ["ok", rec["line"]]
         return ["ok", None]
 
+    from pyp0f.fingerprint import fingerprint_http, fingerprint_tcp
+    HTTP_REQ = b"GET / HTTP/1.1\r\nHost: a\r\n\r\n"
+    HTTP_RESP = b"HTTP/1.1 200 OK\r\nServer: a\r\n\r\n"
+    SYNACK = U.scapy_from_spec({"flags": 0x12, "ack": 5, "opts": W.o_mss(1460)})
+
+    def raises_db_error(f):
+        try:
+            f()
+            return False
+        except DatabaseError:
+            return True
+
+    def section_views(d):
+        """Which fingerprint entry points report DatabaseError (no such section loaded) through Options(database=d)."""
+        o = Options(database=d)
+        return {"mtu": raises_db_error(lambda: fingerprint_mtu(PKT, options=o)), "tcp_req": raises_db_error(lambda: fingerprint_tcp(PKT, options=o)),
+                "tcp_resp": raises_db_error(lambda: fingerprint_tcp(SYNACK, options=o)), "http_req": raises_db_error(lambda: fingerprint_http(HTTP_REQ, options=o)),
+                "http_resp": raises_db_error(lambda: fingerprint_http(HTTP_RESP, options=o))}
+
     def impl(c):
         db = Database()
         versions = {0: U.dump_db(db)}
-        if fp_view(db) != ["DatabaseError"]:
-            return [[{"fingerprint_before_any_load_did_not_raise_DatabaseError": fp_view(db)}, []]]
+        if fp_view(db) != ["DatabaseError"] or not all(section_views(db).values()):
+            return [[{"fingerprint_before_any_load_did_not_raise_DatabaseError": [fp_view(db), section_views(db)]}, []]]
         torn = []
         races = []
         stop = threading.Event()
@@ -191,6 +210,9 @@ def impl_init():
             snap()
             if fp_view(db) != expected_view(after):
                 res["fingerprint_sees_other_contents_than_the_database_holds"] = [fp_view(db), expected_view(after)]
+            sv = section_views(db)
+            if any(sv[k] != (after[k] is None) for k in sv):
+                res["DatabaseError_not_exactly_for_the_sections_that_are_not_loaded"] = [sv, {k: after[k] is None for k in sv}]
             out.append([res, obs])
         if reader is not None:
             stop.set()
